@@ -109,6 +109,10 @@ def block_lines(m, src):
     return out, doc
 
 
+FINDING_TAGS = {'setext-in-quote', 'lazy-after-indented-quote-content', 'table-on-marker-line', 'item-begins-with-blank-line',
+                'lazy-after-nonpara', 'quote-begins-with-blank-line'}
+
+
 def roundtrip_records(ck, m, record):
     """C09 hook: round-trip records for generated documents (non-canonical spellings)."""
     docs = simulate(ck, 'DocGenSim.cfg', 1500 if ck.tier == 'quick' else 30000)
@@ -119,9 +123,13 @@ def roundtrip_records(ck, m, record):
     for i, d in enumerate(docs):
         if charref.search(d['src']):
             continue          # the property statement sets character references aside for the generated domain
+        # the specification tags every spelling the renderer does not write itself with "nc"; an untagged document is in the
+        # renderer's normal form and must come back byte for byte (judged without normalize_whitespace; documents of a
+        # recorded finding do not mean what they say and are left out of that clause)
+        normal = not (set(d['tags']) & ({'nc'} | FINDING_TAGS))
         for nw in (False, True):
             try:
-                r = record(m, d['src'], nw)
+                r = record(m, d['src'], nw, normal=normal and not nw)
             except Exception as ex:
                 r = {'law': 'roundtrip', 'x': '', 'y': 'EXCEPTION', 'z': ex.__class__.__name__, 'htmlX': '', 'htmlY': '', 'defsX': [], 'defsY': [], 'normal': 'no'}
             out.append((r, {'source': 'docgen', 'doc': i, 'normalize_whitespace': nw, 'input': d['src'], 'classes': sorted(d['tags'])}))
